@@ -23,6 +23,8 @@ def gen_cells(rng, kind, dtype, nr, nc, start_id=1, all_empty=False):
         if dtype == "float":
             if rng.chance(0.12):
                 return None
+            if rng.chance(0.06):
+                return -1.0      # a genuine -1.0 is NOT the missing marker of float payloads
             return cid[0] + 0.5
         if rng.chance(0.1):
             return -1
